@@ -126,6 +126,9 @@ def snapshot(sim, evs):
         {k: (v.energy_delivered, v._battery._current_charge, v.current_charging_rate) for k, v in evs.items()},
         sim.iteration,
         float(sim.peak),
+        # bookkeeping that decides whether the scheduler is asked again for this period
+        (bool(sim._resolve), sim._last_schedule_update, None if sim.schedule_history is None else sorted(sim.schedule_history)),
+        [(ts, e.event_type) for ts, e in sim.event_queue._queue],
     )
 
 
@@ -138,6 +141,8 @@ def same_snapshot(a, b):
         and a[3] == b[3]
         and a[4] == b[4]
         and a[5] == b[5]
+        and a[6] == b[6]
+        and a[7] == b[7]
     )
 
 
@@ -158,7 +163,7 @@ def execute(item):
     algo = ProgSched(prog, scn["k"])
     with warnings.catch_warnings(record=True):
         warnings.simplefilter("always")
-        sim, rec, evs, periods = S.build_sim(scn, algo=algo, on_return=on_return)
+        sim, rec, evs, periods = S.build_sim(scn, algo=algo, on_return=on_return, store_history=True)
         holder["evs"] = evs
         err = None
         try:
